@@ -71,6 +71,24 @@ func ruleC12(r *Report) {
 	})
 	checkFormBuffers(r, p)
 	safely(r, func() { checkEndpointGetters(r, p, "C12.endpoint") })
+	r.Rule("C12.idp-decode", "the IdP's request decoder refuses a request only for its HTTP method or a failing decoding step (base64, inflate, form parsing) — not for the relay state, a length or a header", 1)
+	safely(r, func() { checkRequestDecoder(r, p, "C12.idp-decode") })
+	// "this library's IdP parses and validates every such request": the accept scenarios of the IdP's validator
+	// (C05.accept), run here on behalf of this property
+	r.Rule("C12.idp-accepts", "a fresh 2.0 request from a registered SP naming the SSO URL (or no Destination) whose ACS is found is not rejected by IdpAuthnRequest.Validate, signed or not (the accept scenarios of C05, borrowed)", 1)
+	borrowAccept(r, "C12.idp-accepts")
+}
+
+// borrowAccept runs the C05 rule family with only its accept scenarios kept, renamed to rule.
+func borrowAccept(r *Report, rule string) {
+	r.remap = func(o *Obligation) (string, bool) {
+		if o.Rule == "C05.accept" {
+			return rule, true
+		}
+		return "", false
+	}
+	defer func() { r.remap = nil }()
+	safely(r, func() { ruleC05(r) })
 }
 
 // builders with a relay-state parameter: methods of the outbound message types named Redirect / Post.
@@ -1412,4 +1430,48 @@ func quoteDiscipline(fn *ssa.Function) string {
 		return "the scanner treats the apostrophe as a delimiter but never compares the current byte with the quote that opened the value: an apostrophe inside a double-quoted attribute value (which the writer leaves raw) inverts its inside/outside state, so a later \"]]>\" stays unescaped or a tag's own '>' is rewritten"
 	}
 	return ""
+}
+
+// checkRequestDecoder: the IdP's request decoder (NewIdpAuthnRequest) refuses a request only for its HTTP method and
+// for a failing decoding step (base64, inflate, form parsing): every atom of its reject condition is the error result
+// of a call, or a comparison of the request method with a constant. A gate on anything else — the relay state's length,
+// a header — refuses requests this library's SP produces.
+func checkRequestDecoder(r *Report, p *Prog, rule string) {
+	fn := p.MustFunc("saml", "", "NewIdpAuthnRequest")
+	r.Fn(p.FnName(fn))
+	a := NewAnalysis(p)
+	a.Inline = func(f *ssa.Function) bool {
+		return p.InLibrary(f) && f.Pkg == fn.Pkg && f != fn && (f.Object() == nil || !f.Object().Exported()) && errIndex(f) >= 0
+	}
+	fc := a.Ctx(fn)
+	fc.ensureConds()
+	rej := fc.NotAcceptFormula()
+	var foreign []string
+	for _, nm := range a.B.Support(rej) {
+		ai := a.Atoms[nm]
+		if ai == nil {
+			foreign = append(foreign, nm)
+			continue
+		}
+		switch ai.Kind {
+		case "isnil":
+			// the error (or result) of a call
+			if len(ai.Args) == 1 && strings.HasPrefix(ai.Args[0], "r:") {
+				continue
+			}
+		case "eq":
+			method := false
+			for _, arg := range ai.Args {
+				if strings.HasSuffix(arg, ".Method") {
+					method = true
+				}
+			}
+			if method {
+				continue
+			}
+		}
+		foreign = append(foreign, nm)
+	}
+	sort.Strings(foreign)
+	r.Check(len(foreign) == 0, rule, p.FnName(fn)+": a request is refused only for its method or a failing decoding step", p.Pos(fn.Pos()), fmt.Sprintf("%d conditions, all decoding errors or the method", len(a.B.Support(rej))), "the decoder also refuses requests under "+strings.Join(foreign, ", ")+": a request this library's SP produces (any relay state, either binding) is turned away before it is validated")
 }
